@@ -21,6 +21,7 @@ vars == <<cfg, st, segDone, shadowable, busy, walkerSeg, walkerWorking, outDone,
           files, cached, cmds, msgs, quit, merged, jobsStarted>>
 
 K3 == <<"S", "S", "M">>
+K4 == <<"S", "S", "S", "M">>
 K2 == <<"S", "M">>
 K2S == <<"S", "S">>
 NSt == Len(KindsC)
